@@ -198,6 +198,7 @@ Inductive outcome := ONormal | OBreak | OReturn (v : val) | ORaise (x : exn).
 
 Definition set_local (s : state) (x : string) (v : val) : state := mkst (file s) (strm s) (attrs s) (set_env (locals s) x v).
 Definition set_attr (s : state) (a : string) (v : val) : state := mkst (file s) (strm s) (set_env (attrs s) a v) (locals s).
+Definition restore_locals (s : state) (l : env) : state := mkst (file s) (strm s) (attrs s) l.
 Definition set_pos (s : state) (p : N) : state := mkst (file s) (mks p (s_wr (strm s)) (s_closed (strm s))) (attrs s) (locals s).
 
 (* read(n) at the current position: up to n bytes, fewer at the end of the file *)
@@ -302,18 +303,20 @@ Fixpoint exec (fuel : nat) (c : stmt) (s : state) {struct c} : state * outcome :
            | Some v => (set_local s1 x v, ONormal)
            | None => (set_local s1 x d, ONormal)
            end
-  | SCall body => let '(s1, o) := exec fuel body s in
-                  match o with
-                  | OReturn _ => (s1, ONormal)
-                  | OBreak => (s1, ORaise XOther)
-                  | _ => (s1, o)
-                  end
+  | SCall body => let '(s1, o) := exec fuel body s in          (* the callee's local variables are its own: *)
+                  (restore_locals s1 (locals s),               (* the caller's come back when the call ends *)
+                   match o with
+                   | OReturn _ => ONormal
+                   | OBreak => ORaise XOther
+                   | _ => o
+                   end)
   | SCallRet body => let '(s1, o) := exec fuel body s in
-                     match o with
-                     | ONormal => (s1, OReturn VNone)
-                     | OBreak => (s1, ORaise XOther)
-                     | _ => (s1, o)
-                     end
+                     (restore_locals s1 (locals s),
+                      match o with
+                      | ONormal => OReturn VNone
+                      | OBreak => ORaise XOther
+                      | _ => o
+                      end)
   | STryElse body handler els =>
       let '(s1, o) := exec fuel body s in
       match o with
